@@ -1,0 +1,49 @@
+// Copyright 2021 TiKV Project Authors.
+//
+// Licensed under the Apache License, Version 2.0 (the "License");
+// you may not use this file except in compliance with the License.
+// You may obtain a copy of the License at
+//
+//     http://www.apache.org/licenses/LICENSE-2.0
+//
+// Unless required by applicable law or agreed to in writing, software
+// distributed under the License is distributed on an "AS IS" BASIS,
+// See the License for the specific language governing permissions and
+// limitations under the License.
+
+//go:build verif
+// +build verif
+
+// Machine-checked contracts for region scatter (checked by /verif/govc; comment-only file).
+package schedule
+
+//@ opaque github.com/tikv/pd/server/schedule/filter::NewPlacementSafeguard, (*selectedStores).TotalCountByStore, (*selectedStores).Get, (*selectedStores).Put
+//@ pure otherPeerOn(region *core.RegionInfo, self uint64, id uint64) = id != self && hasPeerOn(region, id)
+
+// selectCandidates: every candidate is a store that has not been selected for another peer of the region and does
+// not hold another peer of it (the peer's own store may be a candidate).
+//@ func (*RegionScatterer).selectCandidates
+//@   props C11
+//@   dispatch Filter.Target passT
+//@   requires r != nil && r.cluster != nil && region != nil && region.meta != nil
+//@   loop 1 invariant forall id uint64 :: {in(otherPeerStores, id)} in(otherPeerStores, id) == (exists k :: 0 <= k && k <= rangeindex && pstore(region.meta.Peers[k]) == id && id != sourceStoreID)
+//@   loop 2 invariant forall i :: {candidates[i]} 0 <= i && i < len(candidates) ==> !in(selectedStores, candidates[i]) && !otherPeerOn(region, sourceStoreID, candidates[i])
+//@   ensures [candidates-are-free-stores] forall i :: {result[i]} 0 <= i && i < len(result) ==> !in(selectedStores, result[i]) && !otherPeerOn(region, sourceStoreID, result[i])
+//@   modifies ghost evres
+
+// selectStore: the peer stays, or a NEW peer on one of the candidates with the same role is returned.
+//@ func (*RegionScatterer).selectStore
+//@   props C11
+//@   requires r != nil && peer != nil
+//@   ensures [stays-or-goes-to-a-candidate] result == peer || (result != nil && result.Role == peer.Role && (exists i :: 0 <= i && i < len(candidates) && result.StoreId == candidates[i]))
+//@   loop 1 invariant newPeer == nil || (newPeer.Role == peer.Role && (exists i :: 0 <= i && i <= rangeindex && newPeer.StoreId == candidates[i]))
+//@   modifies nothing
+
+// The scatter loop: each peer either stays or moves to a store that is neither selected already nor holds another
+// peer of the region - so no two peers end on one store and the number of peers is kept.
+//@ func (*RegionScatterer).scatterRegion$1
+//@   props C11
+//@   requires r != nil && r.cluster != nil && region != nil && region.meta != nil && (forall k uint64 :: {in(peers, k)} in(peers, k) ==> peers[k] != nil) && peers != targetPeers
+//@   loop 1 modifies targetPeers[*], selectedStores[*], ghost evres
+//@   at selectStore 1 after assert [stays-or-moves-to-a-free-store] r0 == peer || (r0 != nil && r0.Role == peer.Role && !in(selectedStores, r0.StoreId) && !otherPeerOn(region, pstore(peer), r0.StoreId))
+//@   modifies *
